@@ -102,6 +102,16 @@ def secsOf (vf : VF) (a : Option String) (ms : Int) : Float :=
   | some "endm" => Float.ofBits ((timeTotal vf (-1)).toBits - 1)
   | some "endp" => Float.ofBits ((timeTotal vf (-1)).toBits + 1)
   | some "nan" => 0.0 / 0.0
+  | some a =>
+      if a.startsWith "le" then
+        -- le<k>q<n>: n quarter samples before the end of link k
+        match ((a.drop 2).toString.splitOn "q").map (·.toNat?) with
+        | [some k, some n] =>
+            if vf.seekable ∧ k < vf.links then
+              (List.range (k + 1)).foldl (fun t (i : Nat) => t + timeTotal vf (i : Int)) 0.0 - Float.ofNat n / (4.0 * Float.ofInt vf.infos[k]!.rate)
+            else 0.0
+        | _ => 0.0
+      else Float.ofInt ms / 1000.0
   | _ => Float.ofInt ms / 1000.0
 
 /-- the range check the lapped time seeks make up front -/
